@@ -186,7 +186,12 @@ def replay(r):
             sizes = r["arg_sizes"]
             pargs = [torch.randn(sz, 1, generator=g, dtype=torch.float64) for sz in sizes]
             fn = pr.apply_pairwise if k == "apply_pairwise" else pr.apply_product
-            y = fn(predict, m, X, args=pargs, batch_size=bs, device="cpu")
+            if r.get("func_kwargs"):
+                def func_kw(model_, X_, args=None, scale=1, shift=0, **kw_):
+                    return predict(model_, X_, args=args, **kw_) * scale + shift
+                y = (fn(func_kw, m, X, args=pargs, batch_size=bs, device="cpu", additional_func_kwargs={"scale": 2}, shift=1) - 1) / 2
+            else:
+                y = fn(predict, m, X, args=pargs, batch_size=bs, device="cpu")
             lead = (B, sizes[0]) if k == "apply_pairwise" else (B,) + tuple(sizes)
 
             def inp(i):
@@ -380,13 +385,22 @@ def worker(cfg):
                 sizes = cfg["arg_sizes"]
                 pargs = [T.Tensor(np.array([[core.Real("p%d_%d" % (q, j))] for j in range(sz)], dtype=object), dtype="float32") for q, sz in enumerate(sizes)]
                 fn = getattr(mods["product"], k)
-                y = fn(mods["predict"].predict, model, X, args=pargs, batch_size=bs, device="cpu")
+                if cfg.get("func_kwargs"):
+                    # a func with its own named arguments: one routed through additional_func_kwargs, one through **kwargs;
+                    # every batch (also a final partial one) must receive both
+                    def func_kw(model_, X_, args=None, scale=1, shift=0, **kw_):
+                        return mods["predict"].predict(model_, X_, args=args, **kw_) * scale + shift
+                    y = fn(func_kw, model, X, args=pargs, batch_size=bs, device="cpu", additional_func_kwargs={"scale": 2}, shift=1)
+                    post = lambda v: 2 * v + 1
+                else:
+                    y = fn(mods["predict"].predict, model, X, args=pargs, batch_size=bs, device="cpu")
+                    post = lambda v: v
                 if k == "apply_pairwise":
                     lead = (B, sizes[0])
-                    ex = lambda t, d, i: F(list(xc[i[0]]), [list(a.a[i[1]].flat) for a in pargs])(t, d)
+                    ex = lambda t, d, i: post(F(list(xc[i[0]]), [list(a.a[i[1]].flat) for a in pargs])(t, d))
                 else:
                     lead = (B,) + tuple(sizes)
-                    ex = lambda t, d, i: F(list(xc[i[0]]), [list(a.a[i[1 + q]].flat) for q, a in enumerate(pargs)])(t, d)
+                    ex = lambda t, d, i: post(F(list(xc[i[0]]), [list(a.a[i[1 + q]].flat) for q, a in enumerate(pargs)])(t, d))
                 claim = _rows_claim(y, lead, ex, kind, n_out)
                 key = k + ":wrong-index"
         except (ValueError, RuntimeError, IndexError, TypeError) as e:
@@ -426,6 +440,8 @@ def configs(tier):
         cf.append(dict(kind="apply_pairwise", A=2, B=2, L=2, arg_sizes=[3, 3], out=kind, n_out=n_out, n_args=0))
         cf.append(dict(kind="apply_product", A=2, B=2, L=2, arg_sizes=[3, 2], out=kind, n_out=n_out, n_args=0))
         cf.append(dict(kind="apply_product", A=2, B=1, L=2, arg_sizes=[2], out=kind, n_out=n_out, n_args=0))
+    cf.append(dict(kind="apply_product", A=2, B=2, L=2, arg_sizes=[3, 2], out="tensor", n_out=1, n_args=0, func_kwargs=True))
+    cf.append(dict(kind="apply_pairwise", A=2, B=2, L=2, arg_sizes=[3, 3], out="tensor", n_out=1, n_args=0, func_kwargs=True))
     if not q:
         cf.append(dict(kind="ablate", A=3, B=3, L=4, n=3, out="tensor", n_out=1, n_args=1))
         cf.append(dict(kind="space", A=2, B=2, L=6, ws=[1, 2, 1], S=2, out="tuple", n_out=2, n_args=1))
